@@ -79,3 +79,8 @@ fn take_slice_aligned(data: &mut [u8], take_len: usize) -> (&mut [u8], &mut [u8]
         panic!("Attempted to take {take_len} from scratch with {aligned_len} aligned bytes left");
     }
 }
+
+#[cfg(kani)]
+mod verif_kani {
+    include!(concat!(env!("POULPY_VERIF_KX"), "/cpu_ref/scratch.rs"));
+}
